@@ -111,10 +111,26 @@ def dump_with_faults(case, d, kill_at):
     TP.os = OSMod()
     try:
         with quiet():
-            Flow(*[list(r) for r in case['pkg']], DF.dump_to_path(d, format=case['format'], add_filehash_to_path=case.get('hashpath', False))).process()
+            Flow(*(sources(case) + [DF.dump_to_path(d, **dump_kw(case))])).process()
         return {'ops': ops}
     except Exception as e:
         return {'ops': ops, 'error': type(e).__name__ + ': ' + str(e)[:200]}
+
+
+def sources(case):
+    """the source links: the resources, then the steps that give them the paths the case asks for"""
+    links = [list(r) for r in case['pkg']]
+    for i, pth in enumerate(case.get('paths') or []):
+        if pth is not None:
+            links.append(DF.update_resource('res_%d' % (i + 1), path=pth))
+    return links
+
+
+def dump_kw(case):
+    kw = {'format': case['format'], 'add_filehash_to_path': case.get('hashpath', False)}
+    if case.get('counters'):
+        kw['counters'] = dict(case['counters'])
+    return kw
 
 
 def gen_cases(rng, tier):
@@ -131,11 +147,21 @@ def gen_cases(rng, tier):
     for sh, fmt in ([([2, 2], 'csv'), ([0, 0], 'json')] if tier != 'thorough' else [([2, 2], 'csv'), ([0, 0], 'json'), ([3, 3, 3], 'json'), ([1, 2, 1], 'csv')]):
         pkg = [[{'a': j, 's': 'é%d' % j} for j in range(n)] for n in sh]
         cases.append({'kind': 'crash', 'pkg': pkg, 'format': fmt, 'shape': sh, 'chunk': 48, 'hashpath': True})
+    # counters switched off one kind at a time (what stays recorded must still be true of the file), and resource paths
+    # with sub-directories, spaces and a backslash (the listed path must be the path written)
+    extra = [({'resource-bytes': None, 'datapackage-bytes': None}, None), ({'resource-hash': None, 'datapackage-hash': None}, None),
+             (None, ['data\\r 1.csv', 'sub/dir/r2.csv'])]
+    if tier == 'thorough':
+        extra += [({'resource-bytes': None}, ['a/b.csv', None]), ({'resource-rowcount': None, 'datapackage-bytes': None}, ['x\\y\\z.csv', 'x/y.csv'])]
+    for k, (counters, paths) in enumerate(extra):
+        fmt = 'csv' if k % 2 == 0 else 'json'
+        pkg = [[{'a': 10 * i + j, 's': 'é%d' % j} for j in range(n)] for i, n in enumerate([2, 1])]
+        cases.append({'kind': 'crash', 'pkg': pkg, 'format': fmt, 'shape': [2, 1], 'chunk': 48, 'counters': counters, 'paths': paths})
     return cases
 
 
-def inspect(d):
-    """the property evaluated on a directory"""
+def inspect(d, off=()):
+    """the property evaluated on a directory (off = the counters the case switched off)"""
     f = os.path.join(d, 'datapackage.json')
     if not os.path.exists(f):
         return {'descriptor': 'absent'}
@@ -151,9 +177,9 @@ def inspect(d):
             bad.append('listed file %s does not exist' % r['path'])
             continue
         data = open(p, 'rb').read()
-        if r.get('bytes') != len(data):
+        if 'resource-bytes' not in off and r.get('bytes') != len(data):
             bad.append('%s has %d bytes, descriptor says %r' % (r['path'], len(data), r.get('bytes')))
-        if r.get('hash') != hashlib.md5(data).hexdigest():
+        if 'resource-hash' not in off and r.get('hash') != hashlib.md5(data).hexdigest():
             bad.append('%s: md5 differs from the recorded hash' % r['path'])
     return {'descriptor': 'parseable', 'bad': bad}
 
@@ -166,7 +192,8 @@ def run_impl(case):
     if clean is None or 'error' in clean:
         return {'error': 'clean run failed: %r' % (clean,)}
     ops = clean['ops']
-    final = inspect(d0)
+    off = tuple(k for k, v in (case.get('counters') or {}).items() if v is None)
+    final = inspect(d0, off)
     text = open(os.path.join(d0, 'datapackage.json'), 'rb').read()
     prefix_parse = 0
     for i in range(len(text)):
@@ -179,7 +206,7 @@ def run_impl(case):
     kills = []
     for k in range(len(ops)):
         d = os.path.join(base, 'k%d' % k)
-        r = inspect(d) if os.path.isdir(d) else {'descriptor': 'absent'}
+        r = inspect(d, off) if os.path.isdir(d) else {'descriptor': 'absent'}
         r['k'] = k
         kills.append(r)
     # interruptions by an exception (a later step raising at every row of every resource, and the copy of every data
@@ -201,12 +228,11 @@ def run_impl(case):
         d = os.path.join(base, 'x%d_%d' % (ri, k))
         try:
             with quiet():
-                Flow(*[list(r) for r in case['pkg']], DF.dump_to_path(d, format=case['format'], add_filehash_to_path=case.get('hashpath', False)),
-                     raising_step(ri, k)).process()
+                Flow(*(sources(case) + [DF.dump_to_path(d, **dump_kw(case)), raising_step(ri, k)])).process()
             raised = False
         except Exception:
             raised = True
-        r = inspect(d) if os.path.isdir(d) else {'descriptor': 'absent'}
+        r = inspect(d, off) if os.path.isdir(d) else {'descriptor': 'absent'}
         r.update({'res': ri, 'row': k, 'raised': raised})
         raises.append(r)
     shutil.rmtree(base, ignore_errors=True)
